@@ -38,12 +38,12 @@ func init() {
 		Rule:     "a case = capacity, initial rotation (counter warp) and fill, thread programs (Push/Pop/Len/IsEmpty/IsFull) + a schedule of atomic steps executed on the real ringz/sync.go under the deterministic scheduler; non-trivial = at least one context switch while the thread switched away from is inside a call; distinct by hash",
 		Classify: classify,
 		Facts:    facts,
-		Extras:   []core.Extra{raceExtra},
+		Extras:   []core.Extra{raceExtra, timedExtra},
 		Parallel: false,
 		Assumptions: []string{
 			"sync/atomic operations are sequentially consistent and DRF-SC holds (Go memory model)",
 			"BoundedLag: fewer than 2^32 - Cap() operations of the same kind succeed while any single call is in flight (F12: any fixed-width ticket has an ABA beyond that)",
-			"PushWait/PopWait with a positive duration (ticker) are not scheduled; with a negative duration they are Push/Pop in a Gosched loop",
+			"PushWait/PopWait with a positive duration (ticker) are not run under the deterministic scheduler: their loop is modelled with the ticks/expiry as environment input (c01_timed_wait) and exercised under the real clock with timing-independent conservation verdicts; with a negative duration they are Push/Pop in a Gosched loop",
 		},
 		TrustedBase: []string{
 			"deterministic scheduler + sync/atomic and runtime shims (go/internal/sched), import-path rewrite of the scratch copy (go/gen.sh)",
@@ -208,6 +208,22 @@ func checkInner(c core.Case, out []string, h header, capacity int) *core.Failure
 	}
 	var fLen int
 	var fEmpty, fFull string
+	if k := strings.Index(final, " other="); k >= 0 {
+		// provenance pair: the OTHER ring value must be untouched by everything that
+		// happened to the ring under test (and vice versa)
+		rest := final[k+1:]
+		final = final[:k]
+		want := "other=" + strings.ReplaceAll(fmt.Sprint(h.otherWant()), ",", "") + " probe=ok"
+		if rest != want {
+			who := "the template it was copied from before its own Init"
+			if h.prov == 2 {
+				who = "the origin that was re-initialised after the ring under test was copied from it"
+			}
+			return &core.Failure{Key: "reinit-shares-slots", Desc: fmt.Sprintf("two SyncRing values (struct copy, then Init on one of them) are not independent: after the case %s shows %q, want %q", who, rest, want)}
+		}
+	} else if h.prov != 0 && final != "" {
+		return &core.Failure{Key: "harness", Desc: "provenance case without the other ring's observation: " + final}
+	}
 	if final != "" {
 		// final len=<n> empty=<b> full=<b> [v v v]
 		f := strings.SplitN(final, " ", 5)
@@ -278,6 +294,9 @@ func classify(c core.Case, out []string) []string {
 	if h, ok := parseHeader(c.Lines[0]); ok {
 		if h.warp != 0 {
 			seen["warped-start"] = true
+		}
+		if h.prov != 0 {
+			seen[fmt.Sprintf("provenance-%d-init-cap-%s", h.prov, map[bool]string{true: "le", false: "gt"}[(h.prov == 1 && effCap(h.capreq) <= effCap(h.pcap)) || (h.prov == 2 && effCap(h.pcap) <= effCap(h.capreq))])] = true
 		}
 		seen[fmt.Sprintf("cap-%d", effCap(h.capreq))] = true
 	}
